@@ -289,7 +289,8 @@ class SymListO:
         self.ekind = ekind
 
 
-VKIND_SORT = {'real': Real, 'bool': Bool, 'optarm': OptArm, 'mat': Mat, 'rseq': RSeq, 'int': Int, 'arm': Arm,
+RArrSort = z3.ArraySort(Arm, Real)
+VKIND_SORT = {'dict.keys': ASeq, 'dict.vals': RArrSort, 'real': Real, 'bool': Bool, 'optarm': OptArm, 'mat': Mat, 'rseq': RSeq, 'int': Int, 'arm': Arm,
               'opaque': Opaque, 'rng': Int, 'aseq': ASeq, 'iseq': ISeq}
 
 
